@@ -257,27 +257,27 @@ var _ = constant.Int
 
 // auditedAborts: "<func>/<construct>" -> invariant
 var auditedAborts = map[string]string{
-	"internal/cpp/types.writeComputedFieldExpression/default of switch on t.Operator": "BinaryOpPow is emitted as std::pow(l, r) by the branch in front of the switch",
-	"pkg/dsl/parser.(TypeTail).String/abort":                                          "participle union: exactly one of Optional|MapValue|Vector|Array is set by the grammar; the if-chain tests all four",
-	"pkg/dsl.convertType/abort":                                                       "participle union `(@@ | '(' @@ ')')`: Named or Sub is set",
-	"pkg/dsl.applyTypeTail/abort":                                                     "participle union: exactly one of Optional|MapValue|Vector|Array is set",
-	"pkg/dsl.convertPattern/abort":                                                    "participle union `@'_' | (@@ @Ident?)`: Discard or Type is set",
-	"pkg/dsl.ParseYamlInDir/default of type switch on node":                           "position invariant: every node built by the YAML/expression parsers carries Line and Column (rule P7)",
-	"pkg/dsl.(*TypeDefinitions).MarshalJSON/default of type switch on typeDefinition": "Namespace.TypeDefinitions only ever holds records, enums and aliases: UnmarshalTypeDefinition builds nothing else and protocols go to Namespace.Protocols",
-	"pkg/dsl.(*UnaryExpression).MarshalJSON/abort":                                    "UnaryOpNegate is the only UnaryOperator constant and the only one parseAtom constructs",
-	"pkg/dsl.TypeDefinitionsEqual/default of type switch on a":                        "PrimitiveDefinition values are equal by identity or differ by name, both decided before the switch",
-	"pkg/dsl.ExpressionsEqual/default of type switch on a":                            "reached only through TypeDefinitionsEqual on two same-named records; instantiations of one definition share their computed-field expression nodes, so `a == b` returns first",
-	"pkg/dsl.updateTypeRefence/abort":                                                 "MakeGenericType fails only on an arity mismatch, which resolveTypes has already rejected (the rewriter runs on validated trees)",
-	"pkg/dsl.ParseExpression/abort":                                                   "only participle/lexer errors can come out of parseExpr (rule E4)",
-	"pkg/dsl.combineOperands/default of switch on tok.Type":                           "called only for tokens whose operatorInfo entry IsBinary; that each of those has a case is rule P4b",
-	"pkg/dsl.parseCall/abort":                                                         "called only after the caller peeked an OpenParen token",
-	"pkg/dsl.parseSubscript/abort":                                                    "called only after the caller peeked an OpenBracket token",
-	"pkg/dsl.(SymbolTable).GetGenericTypeDefinition/abort":                            "every definition with type parameters was registered by buildSymbolTable under its qualified name",
-	"pkg/dsl.GetProtocolSchemaString/abort":                                           "json.Marshal of the schema structs cannot fail: no channels, funcs or cyclic values, and the custom marshallers return no errors",
-	"pkg/dsl.resolveComputedFields/default of type switch on rewrittenCase.Pattern":   "the DiscardPattern case is handled by the preceding `if _, isDiscard` branch",
-	"pkg/dsl.topologicalSortTypes/default of type switch on n":                        "only records, enums, aliases and fields are ever parents on the dependency path",
-	"pkg/dsl.(VisitorWithContext[T]).VisitChildren/default of type switch on node":    "*SubscriptArgument is never passed to Visit (see V1 table)",
-	"internal/cmd.updatePackageInfoFromArgs/abort":                                    "structs.Provider.Read only walks the PackageInfo struct and returns no error for a struct pointer",
+	"internal/cpp/types.writeComputedFieldExpression/default of switch on BinaryOperator": "BinaryOpPow is emitted as std::pow(l, r) by the branch in front of the switch",
+	"pkg/dsl/parser.(TypeTail).String/abort":                                              "participle union: exactly one of Optional|MapValue|Vector|Array is set by the grammar; the if-chain tests all four",
+	"pkg/dsl.convertType/abort":                                                           "participle union `(@@ | '(' @@ ')')`: Named or Sub is set",
+	"pkg/dsl.applyTypeTail/abort":                                                         "participle union: exactly one of Optional|MapValue|Vector|Array is set",
+	"pkg/dsl.convertPattern/abort":                                                        "participle union `@'_' | (@@ @Ident?)`: Discard or Type is set",
+	"pkg/dsl.ParseYamlInDir/default of type switch on Node":                               "position invariant: every node built by the YAML/expression parsers carries Line and Column (rule P7)",
+	"pkg/dsl.(*TypeDefinitions).MarshalJSON/default of type switch on TypeDefinition":     "Namespace.TypeDefinitions only ever holds records, enums and aliases: UnmarshalTypeDefinition builds nothing else and protocols go to Namespace.Protocols",
+	"pkg/dsl.(*UnaryExpression).MarshalJSON/abort":                                        "UnaryOpNegate is the only UnaryOperator constant and the only one parseAtom constructs",
+	"pkg/dsl.TypeDefinitionsEqual/default of type switch on TypeDefinition":               "PrimitiveDefinition values are equal by identity or differ by name, both decided before the switch",
+	"pkg/dsl.ExpressionsEqual/default of type switch on Expression":                       "reached only through TypeDefinitionsEqual on two same-named records; instantiations of one definition share their computed-field expression nodes, so `a == b` returns first",
+	"pkg/dsl.updateTypeRefence/abort":                                                     "MakeGenericType fails only on an arity mismatch, which resolveTypes has already rejected (the rewriter runs on validated trees)",
+	"pkg/dsl.ParseExpression/abort":                                                       "only participle/lexer errors can come out of parseExpr (rule E4)",
+	"pkg/dsl.combineOperands/default of switch on TokenType":                              "called only for tokens whose operatorInfo entry IsBinary; that each of those has a case is rule P4b",
+	"pkg/dsl.parseCall/abort":                                                             "called only after the caller peeked an OpenParen token",
+	"pkg/dsl.parseSubscript/abort":                                                        "called only after the caller peeked an OpenBracket token",
+	"pkg/dsl.(SymbolTable).GetGenericTypeDefinition/abort":                                "every definition with type parameters was registered by buildSymbolTable under its qualified name",
+	"pkg/dsl.GetProtocolSchemaString/abort":                                               "json.Marshal of the schema structs cannot fail: no channels, funcs or cyclic values, and the custom marshallers return no errors",
+	"pkg/dsl.resolveComputedFields/default of type switch on Pattern":                     "the DiscardPattern case is handled by the preceding `if _, isDiscard` branch",
+	"pkg/dsl.topologicalSortTypes/default of type switch on Node":                         "only records, enums, aliases and fields are ever parents on the dependency path",
+	"pkg/dsl.(VisitorWithContext[T]).VisitChildren/default of type switch on Node":        "*SubscriptArgument is never passed to Visit (see V1 table)",
+	"internal/cmd.updatePackageInfoFromArgs/abort":                                        "structs.Provider.Read only walks the PackageInfo struct and returns no error for a struct pointer",
 }
 
 func ruleAborts(fileScope func(string) bool, ruleID string, min int) func(c *core.Ctx) {
@@ -305,33 +305,43 @@ func ruleAbortsImpl(fileScope func(string) bool, ruleID string, min int, onlyDef
 			info := p.TypesInfo
 			for i, a := range abortSites(c, d) {
 				sw, _ := enclosingDefault(d, a.call)
+				if s, ok := sw.(*ast.SwitchStmt); ok && s.Tag == nil {
+					sw = nil // a tagless switch is an if-chain: its default is the final else
+				}
 				if sw == nil && onlyDefaults {
 					continue
 				}
+				// the construct is named by what is switched on (its static type), not by the name of the variable
 				label := "abort"
 				if sw != nil {
 					switch s := sw.(type) {
 					case *ast.TypeSwitchStmt:
-						label = "default of type switch on " + types.ExprString(parseTypeSwitch(info, s).subject)
+						label = "default of type switch on " + typeLabel(info.TypeOf(parseTypeSwitch(info, s).subject))
 					case *ast.SwitchStmt:
-						if s.Tag != nil {
-							label = "default of switch on " + types.ExprString(s.Tag)
-						} else {
-							label = "default of tagless switch"
-						}
+						label = "default of switch on " + typeLabel(info.TypeOf(s.Tag))
 					}
 				}
 				key := fmt.Sprintf("%s/%s", c.FuncName(d), label)
 				_ = i
+				// an audit given for a function also covers an unexported helper that only that function calls:
+				// the invariant is about what reaches the construct, and nothing else reaches the helper
+				auditKey := key
+				if _, listed := auditedAborts[key]; !listed {
+					if owner := soleCaller(c, d); owner != nil {
+						if k2 := fmt.Sprintf("%s/%s", c.FuncName(owner), label); auditedAborts[k2] != "" {
+							auditKey = k2
+						}
+					}
+				}
 				if sw != nil {
 					if ok, why := exhaustive(c, info, sw, c.FuncName(d)); ok {
 						c.OK(ruleID, key, a.call.Pos(), why)
 						continue
-					} else if r, listed := auditedAborts[key]; listed {
-						found[key] = true
+					} else if r, listed := auditedAborts[auditKey]; listed {
+						found[auditKey] = true
 						// the audit was written for a specific set of uncovered cases: a case that goes
 						// missing later is not covered by it
-						if extra := notPinned(key, missingOf(why)); len(extra) > 0 {
+						if extra := notPinned(auditKey, missingOf(why)); len(extra) > 0 {
 							c.Bad(ruleID, key, a.call.Pos(), fmt.Sprintf("abort reachable: the audited reason (%s) was given for other uncovered cases; now also without a case: %s", r, strings.Join(extra, ", ")))
 							continue
 						}
@@ -342,6 +352,7 @@ func ruleAbortsImpl(fileScope func(string) bool, ruleID string, min int, onlyDef
 						continue
 					}
 				}
+				key = auditKey
 				if r, listed := auditedAborts[key]; listed {
 					found[key] = true
 					c.OK(ruleID, key, a.call.Pos(), "audited: "+r)
@@ -351,6 +362,46 @@ func ruleAbortsImpl(fileScope func(string) bool, ruleID string, min int, onlyDef
 			}
 		}
 	}
+}
+
+// soleCaller returns the one function of the same package that calls the unexported function d (directly,
+// with no other reference to it anywhere in the module), or nil.
+func soleCaller(c *core.Ctx, d *ast.FuncDecl) *ast.FuncDecl {
+	if d.Name.IsExported() || d.Recv != nil {
+		return nil
+	}
+	p := c.DeclPkg(d)
+	if p == nil {
+		return nil
+	}
+	me, _ := p.TypesInfo.Defs[d.Name].(*types.Func)
+	if me == nil {
+		return nil
+	}
+	var owner *ast.FuncDecl
+	for _, o := range c.AllDecls() {
+		if o == d || c.DeclPkg(o) != p {
+			continue
+		}
+		uses := false
+		for _, cs := range c.Calls(o) {
+			if cs.Callee != nil && cs.Callee.Origin() == me {
+				uses = true
+			}
+		}
+		for _, r := range c.Refs(o) {
+			if r.Origin() == me {
+				uses = true
+			}
+		}
+		if uses {
+			if owner != nil {
+				return nil
+			}
+			owner = o
+		}
+	}
+	return owner
 }
 
 // missingOf extracts the list after "without a case: " from an exhaustiveness verdict.
